@@ -55,6 +55,10 @@ def prepare_for_rewriting(module: gtirb.Module, nop: bytes) -> Iterator[None]:
 
     yield
 
+    # A patch with an .align directive creates the alignment table on demand.
+    if _auxdata.alignment.exists(module):
+        alignment = _auxdata.alignment.get_or_insert(module)
+
     for partition in partitions:
         join_byte_intervals(partition, nop, alignment)
         for interval in partition[1:]:
